@@ -3,6 +3,7 @@
 package generic
 
 import (
+	"slices"
 	"strings"
 
 	"github.com/ohler55/slip"
@@ -222,7 +223,7 @@ func insertMethod(class, super slip.Class, method *slip.Method, combo *slip.Comb
 			pos++
 		}
 	}
-	m.Combinations = append(append(m.Combinations[:pos], combo), m.Combinations[pos:]...)
+	m.Combinations = slices.Insert(m.Combinations, pos, combo)
 }
 
 // DefCallerMethod defines a method for a caller.
